@@ -1,5 +1,5 @@
 """Confirm and evaluate seeded mutants.
-  python3 harness/seed_eval.py collect <PID> <k>      copy /tmp/wt/<PID>/out/{mutk.diff,demok.py,metak.json} to seeded/<PID>-m<k>/
+  python3 harness/seed_eval.py collect <PID> <k>      copy /tmp/wt/<PID>/out/{mutk.diff,demok.py,metak.json} to seeded/<PID>-m<k>/  (optional: worktree name, target index)
   python3 harness/seed_eval.py confirm <id>           in a scratch worktree: suite unchanged, demo fails with / passes without
   python3 harness/seed_eval.py run <id> [checks...]   apply to /repo, run the quick checks, revert; records the outcome
 """
@@ -27,9 +27,9 @@ def suite(wt):
   return out
 
 
-def collect(pid, k):
-  src = '/tmp/wt/%s/out' % pid
-  d = os.path.join(V, 'seeded', '%s-m%s' % (pid, k))
+def collect(pid, k, wt=None, as_k=None):
+  src = '/tmp/wt/%s/out' % (wt or pid)
+  d = os.path.join(V, 'seeded', '%s-m%s' % (pid, as_k or k))
   os.makedirs(d, exist_ok=True)
   shutil.copy(os.path.join(src, 'mut%s.diff' % k), os.path.join(d, 'patch.diff'))
   shutil.copy(os.path.join(src, 'demo%s.py' % k), os.path.join(d, 'demo.py'))
@@ -101,7 +101,7 @@ def run(mid, checks):
 if __name__ == '__main__':
   cmd = sys.argv[1]
   if cmd == 'collect':
-    collect(sys.argv[2], sys.argv[3])
+    collect(*sys.argv[2:6])
   elif cmd == 'confirm':
     confirm(sys.argv[2])
   elif cmd == 'run':
